@@ -232,7 +232,7 @@ fn do_replay(file: &str) -> i32 {
         let file2 = file.to_string();
         let prop2 = prop.clone();
         std::thread::spawn(move || {
-            std::thread::sleep(std::time::Duration::from_secs(20));
+            std::thread::sleep(std::time::Duration::from_secs(60));
             println!("VIOLATION property={prop2} replay={file2}");
             std::process::exit(1);
         });
@@ -289,13 +289,27 @@ fn batch(prop: &str, gen_prop: &str, tier: Tier, seed: u64, runs: u64, threads: 
                 for b in beats.iter() {
                     let run = b.0.load(Ordering::Relaxed);
                     let since = b.1.load(Ordering::Relaxed);
-                    if run != u64::MAX && now.saturating_sub(since) > 20_000 {
+                    if run != u64::MAX && now.saturating_sub(since) > 60_000 {
+                        // re-execute that run in a thread of its own: only a run that does not
+                        // return there either is reported (a stalled worker is not a verdict)
+                        let (gp, sd, tr) = (gen_prop.to_string(), seed, tier);
+                        let (tx, rx) = std::sync::mpsc::channel();
+                        std::thread::spawn(move || {
+                            let mut rng = Rng::for_run(sd, &gp, run);
+                            let _ = scen::generate(&gp, &mut rng, tr, run);
+                            let _ = tx.send(());
+                        });
+                        if rx.recv_timeout(std::time::Duration::from_secs(60)).is_ok() {
+                            eprintln!("note: worker stalled on run {run} for more than 60 s of wall time, but the run returns when re-executed: not a verdict");
+                            b.1.store(t0.elapsed().as_millis() as u64, Ordering::Relaxed);
+                            continue;
+                        }
                         let _ = std::fs::create_dir_all("replays");
                         let path = format!("replays/{prop}-{seed}-{run}-hang.json");
                         let j = json!({"property": prop, "class": "call-did-not-return", "seed": seed, "run": run, "hang": true, "gen_prop": gen_prop, "tier": if tier == Tier::Quick { "quick" } else { "thorough" }});
                         std::fs::write(&path, serde_json::to_string_pretty(&j).unwrap()).ok();
                         let abs = std::fs::canonicalize(&path).map(|p| p.display().to_string()).unwrap_or(path.clone());
-                        println!("violation class=call-did-not-return run={run}: a run exceeded 20 s of wall time");
+                        println!("violation class=call-did-not-return run={run}: the run does not return (60 s in the batch, 60 s re-executed alone)");
                         if prop == "C05" || prop == "C01" {
                             println!("VIOLATION property={prop} replay={abs}");
                             std::process::exit(1);
